@@ -68,6 +68,7 @@ class Trace:
         self.events: list[dict] = []
         self.decisions: list[str] = []
         self.taint = {"p": True, "q": True, "s": True, "z": True}  # implicit flows: branches on non-equivariant values
+        self.decided: dict = {}  # test key -> outcome: the same symbolic question gets the same answer along one path
 
 
 class Result:
@@ -405,6 +406,9 @@ class Interp:
             dec = self.ops.decide_test(st.test, t, env)
         site = f"{self.where(st)[0]}: if {norm_text(st.test)}"
         cmps = [e for e in self.trace.events[n0:] if e["kind"] in ("size_compare", "scale_branch", "cmp")]
+        tkey = self.ops.test_key(t, cmps, st.test) if dec is None else None
+        if dec is None and tkey is not None and tkey[0] in self.trace.decided and self.join_depth == 0:
+            dec = self.trace.decided[tkey[0]] ^ tkey[1]
         if dec is None:
             self.taint_by(t, st.test)
         if dec is not None:
@@ -413,6 +417,8 @@ class Interp:
         if self.join_depth == 0:
             c = self.oracle.decide(site, 2)
             self.trace.decisions.append(f"{'T' if c == 0 else 'F'}[{norm_text(st.test)}]")
+            if tkey is not None:
+                self.trace.decided[tkey[0]] = (c == 0) ^ tkey[1]
             self.event("decision", st, test=norm_text(st.test), outcome=(c == 0), forced=False, compares=cmps)
             self.ops.assume(st.test, c == 0, env)
             return self.exec_block(st.body if c == 0 else st.orelse, env)
